@@ -162,6 +162,18 @@ def eval_isolated(prop, k, ids, keep=False):
 if __name__ == "__main__" and sys.argv[1] == "eval":
     r = eval_isolated(sys.argv[2], sys.argv[3], sys.argv[4:])
     os.makedirs("/var/tmp/evalres", exist_ok=True)
-    json.dump(r, open(f"/var/tmp/evalres/{sys.argv[2]}-{sys.argv[3]}.json", "w"), indent=1)
+    _p = f"/var/tmp/evalres/{sys.argv[2]}-{sys.argv[3]}.json"
+    if os.path.exists(_p) and not r.get("error") and os.environ.get("SEED_EVAL_MERGE", "1") == "1":
+        # keep the verdicts of checks not re-run now (marked stale); caught_by is recomputed over the union
+        try:
+            old = json.load(open(_p))
+            for p, c in old.get("checks", {}).items():
+                if p not in r.get("checks", {}):
+                    c["stale"] = True
+                    r.setdefault("checks", {})[p] = c
+            r["caught_by"] = sorted(p for p, c in r["checks"].items() if c.get("violations", 0) > 0)
+        except Exception:
+            pass
+    json.dump(r, open(_p, "w"), indent=1)
     print(json.dumps(dict(property=r["property"], k=r["k"], caught_by=r.get("caught_by"), error=r.get("error"),
                           checks={p: (c["exit"], c["violations"], c["wall_s"]) for p, c in r.get("checks", {}).items()})))
